@@ -634,3 +634,29 @@ Section Butterworth.
     butter_epochs F ts (lin a b x y) ep = lin a b (butter_epochs F ts x ep) (butter_epochs F ts y ep).
   Proof. intros. unfold butter_epochs. apply apply_epochs_linear; assumption. Qed.
 End Butterworth.
+
+(* ------------------------------------------------------------------ *)
+(* statement-level forms                                               *)
+(* ------------------------------------------------------------------ *)
+Theorem conv_window_is_trimmed_full : forall m kern w i, kern <> [] -> (i < length w)%nat ->
+  nth i (conv_window m kern w) 0 = conv_sum w kern (fst (cut m (length kern) (length w)) + i).
+Proof. intros. rewrite conv_window_nth by assumption. apply coef_is_sum. Qed.
+
+Theorem cut_spec : forall k t, (1 <= k)%nat ->
+  cut TLeft k t = ((k - 1)%nat, (k - 1 + t)%nat) /\ cut TRight k t = (0%nat, t)
+  /\ (exists c, cut TBoth k t = (c, (c + t)%nat) /\ (k = 2 * c + 1 \/ k = 2 * c + 2)%nat).
+Proof.
+  intros k t Hk. split; [cbn [cut]; f_equal; lia|]. split; [reflexivity|].
+  destruct (divmod2 (k - 1)) as (q & r & H1 & H2 & H3 & H4). exists q.
+  assert (r = 0 \/ r = 1)%nat as [E|E] by lia; subst r.
+  - replace k with (2 * q + 1)%nat by lia. split; [apply cut_both_odd|lia].
+  - replace k with (2 * q + 2)%nat by lia. split; [apply cut_both_even|lia].
+Qed.
+
+Theorem conv_full_spec : forall x k, x <> [] ->
+  length (conv x k) = (length x + length k - 1)%nat
+  /\ forall n, (n < length x + length k - 1)%nat -> nth n (conv x k) 0 = conv_sum x k n.
+Proof.
+  intros x k H. split; [apply conv_length; exact H|]. intros n Hn.
+  rewrite nth_conv by assumption. apply coef_is_sum.
+Qed.
